@@ -855,6 +855,11 @@ def rand_spec_trainable(rng):
         mn = rng.choice([0.0, 0.0625, 0.125])
         c["jitter"] = "LATEST"
         c["comm"] = dict(kind="trainable", min=mn, max=mn + rng.choice([0.0625, 0.1875, 0.25]), delay=mn, interp="zoh", loc=mn, scale=0.0)
+    # advance=True needs at least one blocking input on the simulated clock (rex raises NotImplementedError otherwise): a connection
+    # made non-blocking above may have been a node's last blocking input
+    for nd in spec["nodes"]:
+        if nd["advance"] and not any(c["dst"] == nd["name"] and c["blocking"] for c in spec["conns"]):
+            nd["advance"] = False
     return spec
 
 
